@@ -1,4 +1,5 @@
-import sys,re,subprocess
+import sys,re,subprocess,fcntl
+_lk=open('/var/tmp/repo.lock','w'); fcntl.flock(_lk,fcntl.LOCK_EX)
 # usage: m1.py file 'old' 'new' ID  -- textual mutant helper
 f,old,new,idn=sys.argv[1:5]
 p='/repo/'+f
